@@ -46,7 +46,7 @@ type c16env struct {
 	seq  int
 	log  []string
 	desc string
-	// rejSeq counts the dishonest Reject calls (every third one uses a receiver signature made for another purpose)
+	// rejSeq counts the dishonest Reject calls (every second one uses a receiver signature made for another purpose)
 	rejSeq int
 }
 
@@ -330,11 +330,11 @@ func (e *c16env) step() {
 			req.Address = t.receiver.Addr // cross wired: receiver's address, stranger's signature
 		}
 		e.rejSeq++
-		if e.rejSeq%3 == 0 {
+		if e.rejSeq%2 == 0 {
 			// a signature the receiver really made, for another purpose: over a message that begins with the contract's
 			// hash (its counter-signature of another transaction whose subject starts with those bytes), or over a
 			// truncated hash. It authorises nothing about this contract.
-			variant = 3 + (e.rejSeq/3)%2
+			variant = 3 + (e.rejSeq/2+1)%2
 			if variant == 3 {
 				req = svc.Sign(t.receiver, append(append([]byte{}, t.hash[:]...), []byte(" and the rest of another message the receiver signed")...))
 			} else {
